@@ -20,6 +20,8 @@ COLOURS = ['aqua', 'black', 'blue', 'fuchsia', 'gray', 'green', 'lime', 'maroon'
 
 
 def run(ck, prog):
+    from props.common import check_memos
+    ck.attempt(check_memos, ck, prog)
     ck.explanation = (
         "The loop body of get_HTMLColorString is enumerated for one generic residue (abstract strings for the accumulated "
         "text, the residue and its palette entry; the counter an integer atom) into a decision table over (count mod 10, "
